@@ -3,7 +3,7 @@ from . import cacheworld as cw
 
 PROP = 'C03'
 PROFILE = 'c03'
-QUICK = (64, 60, 50.0)
+QUICK = (96, 60, 60.0)
 THOROUGH = (1200, 100, 840.0)
 boot, execute, cfg_sig, nontrivial = cw.boot, cw.execute, cw.cfg_sig, cw.nontrivial
 SHRINK_LISTS, SHRINK_DICTS = cw.SHRINK_LISTS, cw.SHRINK_DICTS
@@ -15,3 +15,31 @@ def gen_config(rng, tier):
 
 def gen_plan(rng, cfg, tier):
   return cw.gen_plan(rng, cfg, tier, PROFILE)
+
+
+# ---- thorough tier: fault enumeration --------------------------------------------
+# For every ENUM_EVERY-th seeded run the fault-free version of the plan is executed,
+# its backend calls c_1..c_k counted, and the plan re-executed once per single-fault
+# placement (each call raising) and for a seeded sample of placement pairs.
+ENUM_EVERY = {'thorough': 6, 'quick': 60}
+
+
+def enumeration_base(plan):
+  p = dict(plan)
+  p.pop('db_faults', None)
+  return p
+
+
+def enumerate_variants(base, bres, rng, tier):
+  k = min(int(bres.get('db_calls', 0)), 60 if tier == 'thorough' else 20)
+  kinds = ['ioerror', 'enospc', 'runtime']
+  for i in range(k):
+    v = dict(base)
+    v['db_faults'] = {str(i): ['raise', kinds[i % 3]]}
+    yield v
+  pairs = [(i, j) for i in range(k) for j in range(i + 1, k)]
+  rng.shuffle(pairs)
+  for i, j in pairs[:60 if tier == 'thorough' else 10]:
+    v = dict(base)
+    v['db_faults'] = {str(i): ['raise', 'ioerror'], str(j): ['raise', 'runtime']}
+    yield v
